@@ -6,7 +6,7 @@
 # /tmp/mx/matrix-<Cxx>.txt
 PID="$1"; shift
 CHECKS=("$@"); if [[ ${#CHECKS[@]} == 0 ]]; then CHECKS=(C01 C02 C03 C04 C05 C06 C07 C08 C09 C10 C11 C12 C13 C14 C15 C16 C17 C18 C19 C20); fi
-W=/tmp/seed/$PID; OUT=/tmp/seed/out/$PID
+W=/tmp/seed/$PID; OUT=${SEED_OUT:-/tmp/seed/out}/$PID
 mkdir -p /tmp/mx
 RES=${MX_RES:-/tmp/mx/matrix-$PID.txt}; : > "$RES"
 for d in "$OUT"/m*/; do
@@ -15,7 +15,7 @@ for d in "$OUT"/m*/; do
   o=/tmp/mx/out/$PID-$k; rm -rf "$o"; mkdir -p "$o"; cp /verif/known_findings.json "$o/"
   line="$PID/$k"
   for c in "${CHECKS[@]}"; do
-    OHMC_REPO_OVERRIDE="$W" OHMC_TARGET_DIR=/tmp/mx/target-$PID OHMC_OUT_DIR="$o" OHMC_CAP_S=120 /verif/check $c quick > "$o/$c.log" 2>&1
+    OHMC_REPO_OVERRIDE="$W" OHMC_TARGET_DIR=/tmp/mx/target-$PID OHMC_OUT_DIR="$o" OHMC_CAP_S=120 ${VERIF_CHECK:-/verif/check} $c quick > "$o/$c.log" 2>&1
     rc=$?
     line="$line $c=$rc"
   done
